@@ -675,7 +675,7 @@ def random_string(width: int = 16) -> str:
     num_chars = ((width + 1) >> 1) << 3  # Convert length to number of bits
     rand_bytes = getrandbits(num_chars)  # Generate random bits
     # Convert to hex string, clip '0x' prefix, and zero-fill as needed
-    return ("000000" + hex(rand_bytes)[2:])[-width:]
+    return hex(rand_bytes)[2:].zfill(width)[-width:]
 
 
 def parse_iso(value):
